@@ -102,10 +102,10 @@ def e2_obligations():
     return [
         MirOb("c16_weekday_tai", "weekday@src/epoch/ops.rs#(&epoch::Epoch)", [In("e", "&Epoch")], post_weekday,
               "weekday() is the civil weekday of the TAI calendar date, for every instant of the day incl. its first and last nanosecond, before 1900 as well",
-              "weekday_tai", pre=pre_u, probes=probes_u, ret_shape="Weekday", min_paths=6, bounds=b, functions=f),
+              "weekday_tai", pre=pre_u, probes=probes_u, ret_shape="Weekday", min_paths=6, probe_witness=True, bounds=b, functions=f),
         MirOb("c16_weekday_utc_own", "weekday_utc@src/epoch/ops.rs#(&epoch::Epoch)", [In("e", "&Epoch")], post_weekday_utc_own,
               "weekday_utc() of a UTC epoch is the civil weekday of its UTC calendar date (every day, every nanosecond, every century)",
-              "weekday_utc", pre=pre_utc_own, probes=probes_utc, ret_shape="Weekday", min_paths=7,
+              "weekday_utc", pre=pre_utc_own, probes=probes_utc, ret_shape="Weekday", min_paths=7, probe_witness=True,
               bounds="every canonical UTC elapsed time (full width)", functions=["Epoch::weekday_utc", "Epoch::weekday_in_time_scale"],
               outside="epochs given in another scale: weekday_utc = same function of to_duration_in_time_scale(UTC), whose conversion is C06; the end-to-end Kani harness c16_weekday_utc runs in the thorough tier"),
         MirOb("c16_next", "next@src/epoch/ops.rs#(&epoch::Epoch;weekday::Weekday)", [In("e", "&Epoch"), In("w", "Weekday")], post_next2,
@@ -130,6 +130,8 @@ def obligations(tier, seed):
         KaniOb("c16", "c16_next_previous_quick", "next(w) / previous(w) end-to-end on the real weekday(): exactly 1..7 whole days later / earlier on the requested weekday of the TAI calendar, same time of day, same scale",
                ["Epoch::next", "Epoch::previous", "Epoch::weekday", "Epoch::weekday_in_time_scale", "Weekday - Weekday", "i64 * Unit", "Epoch +/- Duration"],
                "TAI epochs 1900-2100, every day and every nanosecond of the day x 7 weekdays; unwind 44", tq=2400, mem=24),
+        KaniOb("c16", "c16_next_previous_midnight_windows", "next / previous end to end in the first and last two minutes of fourteen consecutive TAI days of 2024 (where the TAI and UTC calendars disagree)",
+               ["Epoch::next", "Epoch::previous", "Epoch::weekday"], "TAI epochs 2024-01-01 .. 2024-01-14, |time of day| within 120 s of midnight, ns resolution x 7 weekdays; unwind 44", tq=1800, mem=24),
         KaniOb("c16", "c16_from_u8", "Weekday::from(u8) / u8::from(Weekday) reduce modulo 7", [f"{W}: From<u8> for Weekday", "From<Weekday> for u8"], "all 256 u8"),
         KaniOb("c16", "c16_from_i8", "Weekday::from(i8) reduces modulo 7 (Euclidean)", [f"{W}: From<i8> for Weekday"], "all 256 i8"),
         KaniOb("c16", "c16_add_u8", "Weekday + u8 and += wrap modulo 7, never overflow", [f"{W}: Add<u8>, AddAssign<u8>"], "all 7 x 256"),
